@@ -136,7 +136,7 @@ let run mode (x : Sexp.t) : string = match mode, x with
   | "pair", L [c; v; A n] ->
     let c = vconstraint_of_sexp c and v = value_of_sexp v and n = bytes_of_atom n in
     String.concat " " [b2s (x_build_accepts c v); b2s (x_build_accepts_prog c v); b2s (x_build_accepts_named n c v);
-                       b2s (x_conforms c v); b2s (x_conforms_strict c v); b2s (x_constraint_grammar c && x_literal_value v)]
+                       b2s (x_conforms c v); b2s (x_conforms_strict c v); b2s (x_constraint_grammar c && x_literal_value v); b2s (x_runtime_ok c v)]
   | "letnamed", L [ex; v; A n] ->
     b2s (x_build_accepts_let_named (bytes_of_atom n) (value_of_sexp ex) (value_of_sexp v))
   (* (symtab l r): narrow *)
